@@ -110,4 +110,10 @@ def check(ctx):
 
     check_initial_value(ctx, "C02-i", "C02-i", classes=("FlowProperties",))
     check_interp_options(ctx, "C02-j", ["bluebonnet.flow.reservoir", "bluebonnet.flow.flowproperties"], 6)
+    from .c01 import check_alpha_lookup
+
+    check_alpha_lookup(ctx, "C02-l")  # the diffusivity the solver reads is the table's, looked up by a sorting, clamped, linear interpolator
+    from .c04 import check_solver_sites
+
+    check_solver_sites(ctx, "C02-k")  # solver error must not compete with discretisation error
     ctx.floor("C02", len(ctx.obligs), 30, "consistency obligations")
